@@ -19,3 +19,8 @@ Definition ex_root : atom :=
                 empty_tr RUnset)).
 Definition ex_schema : schema := [("root", ex_root); ("item", ex_item)].
 Definition ex_rt := ex_named "root".
+
+(* a single-version updater configuration over ex_schema: identity converter, nothing ignored *)
+From SMD Require Import Model.PathSet Model.Matcher Model.Updater.
+Definition ex_config : config :=
+  mkConfig (fun _ => (ex_schema, ex_rt)) (fun _ _ _ v => COk v) None None false (fun l => l).
